@@ -876,6 +876,8 @@ UNITS = [
      ["Wrappers.lean"], lambda src: __import__("wrappers2lean").generate(src)),
     ("condition variables", ["Cond.lean"], lambda src: __import__("cond2lean").generate(src)),
     ("task_timeout", ["Timeout.lean"], lambda src: __import__("timeout2lean").generate(src)),
+    ("asyncio.base_events / events (stdlib): call_soon, call_at, _run_once, Handle", ["BaseEvents.lean"],
+     lambda src: __import__("baseevents2lean").generate(src)),
     ("asyncio.locks (stdlib)", ["AsyncioLocks.lean"], lambda src: __import__("asynciolocks2lean").generate(src)),
     ("PriorityLock / PriorityTask lock layer", ["Lock.lean"], lambda src: __import__("lock2lean").generate(src)),
     ("CoroStart, _Continuation, coro_eager, cancelling", ["CoroStart.lean"], lambda src: __import__("corostart2lean").generate(src)),
